@@ -13,6 +13,25 @@ FirstBad(rec) ==
     LET bads == {i \in 1..Len(rec.steps) : rec.steps[i][1] # "untouched" /\ ~Equivalent(rec.steps[i][2], rec.steps[i][3])} IN
     IF bads = {} THEN 0 ELSE CHOOSE i \in bads : \A j \in bads : i <= j
 
+\* decoder programs of Token / More / InputOffset calls over one valid text, read from a reader
+\* that delivers the whole input: both packages must answer what the stream model prescribes
+StreamOps == {"Token", "More", "InputOffset", "UseNumber", "DisallowUnknownFields"}
+Modelled(rec) == /\ rec.kind = "decoder" /\ rec.valid /\ ~rec.fed
+                 /\ \A i \in 1..Len(rec.steps) : rec.steps[i][1] \in StreamOps
+IsPrefixOf(p, s) == Len(p) <= Len(s) /\ SubSeq(s, 1, Len(p)) = p
+StreamCheck(rec) ==
+    LET toks == Finish(Run(Opt(TRUE, TRUE, MaxD), rec.input)).toks
+        useNumber == \E i \in 1..Len(rec.steps) : rec.steps[i][1] = "UseNumber"
+        r == FoldLeft(LAMBDA acc, i :
+                 IF acc.bad # <<>> \/ rec.steps[i][1] \in {"UseNumber", "DisallowUnknownFields"} THEN acc
+                 ELSE LET c == SCall(rec.input, toks, acc.st, rec.steps[i][1], useNumber)
+                          agrees(res) == res[1] = c.ok /\ (c.ok \/ rec.steps[i][1] = "More" => IsPrefixOf(c.text, res[2])) IN
+                      IF ~agrees(rec.steps[i][3]) THEN [acc EXCEPT !.bad = <<"SPEC", "classic-stream-differs-from-specification", rec.steps[i][1], i>>]
+                      ELSE IF ~agrees(rec.steps[i][2]) THEN [acc EXCEPT !.bad = <<"C09", "stream-api", rec.steps[i][1], i>>]
+                      ELSE [acc EXCEPT !.st = c.st],
+               [st |-> SInit, bad |-> <<>>], [i \in 1..Len(rec.steps) |-> i]) IN
+    r.bad
+
 Check(rec) ==
     IF rec.panic # "" THEN <<"C20", "panic">>
     \* calibration: the specification's idea of the classic Valid must be what the classic package says
@@ -27,6 +46,7 @@ Check(rec) ==
                    THEN <<"C09", "fffd-spelling+js-separator-spelling", rec.steps[i][1]>>
               ELSE <<"C09", IF a[1] = b[1] THEN "results-differ" ELSE "succeed-or-fail-differs", rec.steps[i][1], i>>
          ELSE IF rec.kind = "unmarshal" /\ ~rec.valid /\ ~rec.steps[2][2][1] THEN <<"C09", "target-touched-on-invalid-input">>
+         ELSE IF Modelled(rec) THEN StreamCheck(rec)
          ELSE <<>>
 
 Init == l = 1 /\ rej = <<>>
